@@ -475,7 +475,7 @@ package util
 //@   requires newNode != nil && Canon(newNode) && PathsWF(newNode)                          #canonical-node
 //@   requires CollectorWF(mpt)                                                              #collector-wf
 //@   assigns heap(OriginTracker.Origin), heap(OriginTracker.Version)
-//@   bodyassigns heap(NodeChange.New), mapof(CCof(mpt).Changes), mapof(CCof(mpt).Deletes), mapof(mpt.cache.cache), ghost(DBDel)
+//@   bodyassigns heap(NodeChange.New), mapof(CCof(mpt).Changes), mapof(CCof(mpt).Deletes), mapof(mpt.cache.cache), ghost(DBDel), ghost(DBPut)
 //@   ensures err == nil ==> n == newNode && key != nil && len(key) == 32 && ((newNode is *FullNode) == KeyIsFull(key))          #assumed-hash-shape
 //@   ensures err == nil ==> str(key) == NodeHB(newNode, heapof(OriginTracker.Origin))                                                                       #returns-the-node-hash
 //@   ensures err == nil && oldNode == nil ==> NodeHash(newNode, heapof(OriginTracker.Origin)) in CCof(mpt).Changes
@@ -663,10 +663,17 @@ package util
 //@ func (*MerklePatriciaTrie).MergeChanges returns (err)
 //@   props C16
 //@   mode wrap
+// C03: a stale child (the parent's root moved on since the child was opened) is rejected before
+// anything is touched; merging a child with the same root changes nothing either.
 //@ func (*MerklePatriciaTrie).mergeChanges returns (err)
-//@   props C16
+//@   props C16 C03
 //@   mode wrap
 //@   holds mpt.mutex W
+//@   requires CollectorWF(mpt)
+//@   ensures str(old(mpt.root)) != str(newRoot) && str(old(mpt.root)) != str(startRoot) ==> err != nil && mpt.root == old(mpt.root)
+//@      | && DBPut == old(DBPut) && DBDel == old(DBDel)
+//@      | && heapof(OriginTracker.Origin) == old(heapof(OriginTracker.Origin))                                   #stale-merge-changes-nothing
+//@   ensures str(old(mpt.root)) == str(newRoot) ==> err == nil && mpt.root == old(mpt.root) && DBPut == old(DBPut) && DBDel == old(DBDel)      #merging-the-same-root-changes-nothing
 //@ func (*MerklePatriciaTrie).MergeDB returns (err)
 //@   props C16
 //@   mode wrap
@@ -682,16 +689,21 @@ package util
 //@ func (NodeDB).GetNode returns (n, err)
 //@   assigns nothing
 //@   ensures err != nil ==> n == nil
+// DBPut / DBDel: per store, the number of put / delete requests it has received (C03: who is written to).
 //@ func (NodeDB).PutNode returns (err)
 //@   requires node != nil && str(key) == NodeHB(node, heapof(OriginTracker.Origin))        #stored-under-its-hash
-//@   assigns nothing
+//@   assigns ghost(DBPut)
+//@   ensures forall d Ref :: d != ref(self) ==> DBPut[d] == old(DBPut[d])
 //@ func (NodeDB).DeleteNode returns (err)
 //@   assigns ghost(DBDel)
+//@   ensures forall d Ref :: d != ref(self) ==> DBDel[d] == old(DBDel[d])
 //@ func (NodeDB).MultiPutNode returns (err)
 //@   requires KeyedByHash(keys, nodes)                                                      #batch-keyed-by-hash
-//@   assigns nothing
+//@   assigns ghost(DBPut)
+//@   ensures forall d Ref :: d != ref(self) ==> DBPut[d] == old(DBPut[d])
 //@ func (NodeDB).MultiDeleteNode returns (err)
 //@   assigns ghost(DBDel)
+//@   ensures forall d Ref :: d != ref(self) ==> DBDel[d] == old(DBDel[d])
 //@ func (NodeDB).Iterate returns (err)
 //@   assigns nothing
 //@ func (ChangeCollectorI).AddChange
@@ -757,6 +769,7 @@ package util
 //@ pred KeyedByHash(keys []Key, nodes []Node) = len(keys) == len(nodes) && (forall i :: 0 <= i && i < len(keys) ==> nodes[i] != nil && str(keys[i]) == NodeHB(nodes[i], heapof(OriginTracker.Origin)))
 // DBDel: abstract record of delete requests sent to stores.
 //@ ghostheap DBDel Int
+//@ ghostheap DBPut Int
 // The parts of a trie: store, transaction cache and collector (object invariant: established by NewChangeCollector / Clone, kept by AddChange / DeleteChange).
 //@ spec CCof(mpt *MerklePatriciaTrie) *ChangeCollector = mpt.ChangeCollector.(*ChangeCollector)
 //@ pred CollectorWF(mpt *MerklePatriciaTrie) = mpt.db != nil && mpt.cache != nil && TxnWF(mpt.cache) && mpt.ChangeCollector is *ChangeCollector && mpt.ChangeCollector.(*ChangeCollector) != nil && mpt.ChangeCollector.(*ChangeCollector).Changes != nil
@@ -855,18 +868,53 @@ package util
 //@   assigns mapof(mndb.Nodes)
 //@   ensures err == nil && StoreKeyed(mndb)                                                                    #store-stays-keyed-by-hash
 //@   loop 1 invariant StoreKeyed(mndb)
+// C03: a layered store writes to its own (current) level only; the level below (prev: the parent's
+// store) receives no put, and no delete unless the store was built to propagate deletes.
 //@ func (*LevelNodeDB).putNode returns (err)
-//@   props C14
+//@   props C14 C03
 //@   mode wrap
 //@   requires lndb.current != nil && node != nil && str(key) == NodeHB(node, heapof(OriginTracker.Origin))     #stored-under-its-hash
-//@   assigns nothing
+//@   assigns ghost(DBPut)
+//@   ensures forall d Ref :: d != ref(lndb.current) ==> DBPut[d] == old(DBPut[d])                               #only-the-own-level-is-written
 //@ func (*LevelNodeDB).PutNode returns (err)
-//@   props C14
+//@   props C14 C03
 //@   mode wrap
 //@   requires lndb.mutex != nil && lndb.current != nil && node != nil && str(key) == NodeHB(node, heapof(OriginTracker.Origin))     #stored-under-its-hash
-//@   assigns nothing
+//@   assigns ghost(DBPut)
+//@   ensures forall d Ref :: d != ref(lndb.current) ==> DBPut[d] == old(DBPut[d])                               #only-the-own-level-is-written
 //@ func (*LevelNodeDB).MultiPutNode returns (err)
-//@   props C14
+//@   props C14 C03
 //@   mode wrap
 //@   requires lndb.mutex != nil && lndb.current != nil && KeyedByHash(keys, nodes)                              #batch-keyed-by-hash
+//@   assigns ghost(DBPut)
+//@   ensures forall d Ref :: d != ref(lndb.current) ==> DBPut[d] == old(DBPut[d])                               #only-the-own-level-is-written
+//@   loop 1 invariant forall d Ref :: d != ref(lndb.current) ==> DBPut[d] == old(DBPut[d])
+//@ func (*LevelNodeDB).deleteNode returns (err)
+//@   props C03
+//@   mode wrap
+//@   requires lndb.current != nil && lndb.prev != nil && lndb.DeletedNodes != nil
+//@   assigns ghost(DBDel), mapof(lndb.DeletedNodes)
+//@   ensures !lndb.PropagateDeletes ==> (forall d Ref :: d != ref(lndb.current) ==> DBDel[d] == old(DBDel[d]))      #deletes-stay-in-the-own-level
+//@ func (*LevelNodeDB).DeleteNode returns (err)
+//@   props C03
+//@   mode wrap
+//@   requires lndb.mutex != nil && lndb.current != nil && lndb.prev != nil && lndb.DeletedNodes != nil
+//@   assigns ghost(DBDel), mapof(lndb.DeletedNodes)
+//@   ensures !lndb.PropagateDeletes ==> (forall d Ref :: d != ref(lndb.current) ==> DBDel[d] == old(DBDel[d]))      #deletes-stay-in-the-own-level
+//@ func (*LevelNodeDB).MultiDeleteNode returns (err)
+//@   props C03
+//@   mode wrap
+//@   requires lndb.mutex != nil && lndb.current != nil && lndb.prev != nil && lndb.DeletedNodes != nil
+//@   assigns ghost(DBDel), mapof(lndb.DeletedNodes)
+//@   ensures !lndb.PropagateDeletes ==> (forall d Ref :: d != ref(lndb.current) ==> DBDel[d] == old(DBDel[d]))      #deletes-stay-in-the-own-level
+//@   loop 1 invariant !lndb.PropagateDeletes ==> (forall d Ref :: d != ref(lndb.current) ==> DBDel[d] == old(DBDel[d]))
+//@ func (*LevelNodeDB).getNode returns (n, err)
+//@   props C03
+//@   mode wrap
+//@   requires lndb.current != nil && lndb.prev != nil
+//@   assigns nothing
+//@ func (*LevelNodeDB).GetNode returns (n, err)
+//@   props C03
+//@   mode wrap
+//@   requires lndb.mutex != nil && lndb.current != nil && lndb.prev != nil
 //@   assigns nothing
